@@ -1129,17 +1129,22 @@ class Histogram:
                 + " but less than number of histograms headers provided."
             )
 
+        default_columns = [
+            "bin_center",
+            "bin_low",
+            "bin_high",
+            "distribution",
+            "stat_err+",
+            "stat_err-",
+            "sys_err+",
+            "sys_err-",
+        ]
         if columns is None:
-            columns = [
-                "bin_center",
-                "bin_low",
-                "bin_high",
-                "distribution",
-                "stat_err+",
-                "stat_err-",
-                "sys_err+",
-                "sys_err-",
-            ]
+            columns = default_columns
+        elif not all(col in default_columns for col in columns):
+            raise ValueError(
+                "columns must be chosen from " + ", ".join(default_columns)
+            )
 
         with open(filename, "w") as f:
             writer = csv.writer(f)
@@ -1161,6 +1166,6 @@ class Histogram:
                         self.systematic_error_[idx][i],
                         self.systematic_error_[idx][i],
                     ]
-                    data = [data[columns.index(col)] for col in columns]
+                    data = [data[default_columns.index(col)] for col in columns]
                     writer.writerow(data)
                 f.write("\n")
